@@ -109,7 +109,7 @@ def run(ctx):
                     "NumPy (float64/longdouble) as search oracle for transcendental functions, 4 ulp in the operand's precision"]
     ctx.assumes += ["domain = Array API 2023.12 category of each function; integer division/remainder by zero, shifts >= bit width, negative integer exponents, INT_MIN negation are outside it"]
     ctx.not_discharged += ["few-ulp accuracy of onnxruntime's transcendental kernels (sampled against NumPy, not proved)",
-                           "integer theorems for bitwise_*, shifts, pow, sign, abs, square are covered by the in-Coq correspondence only (no closed-form theorem yet)"]
+                           "integer shifts, pow, floor_divide, remainder, maximum/minimum: covered by the in-Coq correspondence (and the refutations) only; closed-form theorems exist for add/subtract/multiply/negative/square/abs/sign/bitwise_*/comparisons"]
     ctx.static_build()
     specs, out, unsup = elem.gen_table(ctx)
     # T-graph tie: regenerated table == committed model table
@@ -132,7 +132,7 @@ def run(ctx):
     elem.known_classes(ctx, known)
     f = ctx.work / "C02_static.v"
     f.write_text((core.COQ / "Props" / "C02.v").read_text())
-    ctx.compile("Props/C02.v: integer semantics theorems over all operand values + refutations (uint64 via int64, remainder sign, int64 right shift, floor_divide via float)", f, kind="theorem")
+    ctx.compile("Props/C02.v: integer semantics theorems over all operand values (add, subtract, multiply, negative, square, abs, sign, bitwise_*, comparisons, rounding) + refutations (uint64 via int64, remainder sign, int64 right shift, floor_divide via float)", f, kind="theorem")
     # in-Coq correspondence against the regenerated table
     per_row = 12 if ctx.tier == "quick" else 60
     okc, nbad = in_coq_correspondence(ctx, rnd, "From G Require Import GenElem.", per_row)
